@@ -1,2 +1,4 @@
 pub mod table;
 pub mod query;
+pub mod wire;
+pub mod wire_interp;
